@@ -350,6 +350,13 @@ def run(ctx):
     _mb.rule_M_BINFILL(ctx)
     import tables as _t3
     _t3.rule_T_SPACE(ctx, _t3.Tables(ctx), models=("enum",))
+    # values are compared with `==`, and set-like components live in hash sets: equality of nested unordered compounds needs the semantic
+    # Eq (H-EQSHAPE) AND a hash that agrees with it and does not depend on enumeration order (H-ORDER / H-HASH) -- seeds c01-h, c17-h
+    import eqhash as _eqh
+    _st, _cap = _eqh.rule_H_STORAGE(ctx)
+    _classes = _eqh.rule_H_EQSHAPE(ctx, _st, _cap)
+    _eqh.rule_H_ORDER(ctx)
+    _eqh.rule_H_HASH(ctx, _st, _classes)
     ctx.undecided = ["that parsed and original values compare equal for all values (depends on C06 and on run-time data)",
                      "nesting-dependent ambiguity; name well-formedness side conditions"]
     ctx.assumptions = ["f64 Display emits only digits and '.' for finite values in [0,1] (std guarantee)",
